@@ -43,7 +43,7 @@ def _doc(g, r, ti, files, dirpath, depth_budget=2, allow_fail=True):
     items = []
     keys = r.sample(gen.KEYS, r.randrange(1, 5))
     for k in keys:
-        c = r.randrange(20)
+        c = r.randrange(21)
         g.n += 1
         uid = g.n
         if c < 9:
@@ -72,6 +72,12 @@ def _doc(g, r, ti, files, dirpath, depth_budget=2, allow_fail=True):
             v = raw(f'!xref {r.choice([kk for kk in keys if kk != k] or ["nowhere"])}')
         elif c == 16:
             v = raw(f'!unsafe {emit.emit(g.value(1))}')
+        elif c == 18:
+            # byte-identical annotations in the files of all threads (anything keyed by the annotation text is shared)
+            v = raw(r.choice(["!metadata{{'origin': 'common', 'n': 1}} " + emit.emit(g.scalar()),
+                              "!metadata{{'origin': 'common', 'priority': 1}} " + emit.emit(g.scalar()),
+                              "!required{{'why': 'shared text'}}" if False else "!null{{'why': 'shared text'}}",
+                              "!xref{{'hop': 1}} " + r.choice([kk for kk in keys if kk != k] or ['nowhere'])]))
         elif c == 17 and allow_fail:
             v = raw(r.choice([f'!call:simrec.raiser [t{ti}]', '!required', '!include missing_file.yaml',
                               f'!unsafe !call:simrec.f_t{ti}u []', '!xref nowhere.at.all',
